@@ -35,7 +35,8 @@ def handle (j : Json) : Json :=
     match (getArr j "inputs").toList.mapM parseTensor with
     | none => Json.mkObj [("model", Json.mkObj [("status", "inexact")])]
     | some ins =>
-      let a := runOp op (getObj j "attrs") ins
+      let nOut := (getArr j "outputs").size
+      let a := runOp op (getObj j "attrs") ins (if nOut == 0 then 1 else nOut)
       Json.mkObj [("model", a.model.json), ("spec", a.spec.json),
         ("guard", Json.arr (a.guard.map Json.str).toArray), ("tags", Json.arr (a.tags.map Json.str).toArray)]
   | _ => Json.mkObj [("model", Json.mkObj [("status", "unmodelled")])]
